@@ -24,14 +24,14 @@ pub fn registry(property: &str) -> Option<CheckSpec> {
         "C45" => Some(CheckSpec {
             property: "C45",
             level: "exploration",
-            parts: vec![Part::new(scn::GlvHistory { focus: "C45" }, 3000, 60_000)],
+            parts: vec![Part::new(scn::GlvHistory { focus: "C45" }, 6000, 120_000)],
             assumptions: assumptions(),
         }),
         // GLV part of the action lifecycle property; not listed in PROPERTIES (owned by another crate).
         "C23" => Some(CheckSpec {
             property: "C23",
             level: "exploration",
-            parts: vec![Part::new(scn::GlvHistory { focus: "C23" }, 3000, 60_000)],
+            parts: vec![Part::new(scn::GlvHistory { focus: "C23" }, 6000, 120_000)],
             assumptions: assumptions(),
         }),
         _ => None,
